@@ -204,6 +204,12 @@ func (s *JavaFullListener) EnterInterfaceMethodDeclaration(ctx *parser.Interface
 	position := BuildPosition(ctx.BaseParserRuleContext, name)
 
 	method := &core_domain.CodeFunction{Name: name, ReturnType: typeType, Position: position}
+
+	parameters := bodyDecl.FormalParameters()
+	if buildMethodParameters(parameters, method) {
+		return
+	}
+
 	updateMethod(method)
 }
 
